@@ -108,6 +108,21 @@ macro_rules! harnesses {
         }
         $crate::harness_list!($list; $($name),*);
     };
+    ($list:ident; rawtext; unwind $u:literal; $($name:ident),* $(,)?) => {
+        #[cfg(kani)]
+        mod kani_wrappers {
+            $(
+                #[kani::proof]
+                #[kani::unwind($u)]
+                #[cfg_attr(any(feature = "std", feature = "alloc"), kani::stub(alloc::fmt::format, $crate::stubs::fmt_stub))]
+                #[kani::stub(ais::messages::parsers::parse_6bit_ascii, $crate::stubs::raw_text_stub)]
+                fn $name() {
+                    super::$name(&mut $crate::nd::KaniNd);
+                }
+            )*
+        }
+        $crate::harness_list!($list; $($name),*);
+    };
     ($list:ident; lentext; unwind $u:literal; $($name:ident),* $(,)?) => {
         #[cfg(kani)]
         mod kani_wrappers {
